@@ -1,13 +1,16 @@
 #!/bin/bash
-# tools/seed_validate.sh <seed-dir>: on a scratch copy of /repo HEAD (outside /repo and /verif): the test-suite passes
-# with the patch, demo.py fails with the patch and passes without it.
-d=$(realpath $1)
-V=$(mktemp -d /tmp/seedval.XXXX)
-git -C /repo archive HEAD | tar -x -C $V
-cd $V
-MPLBACKEND=Agg PYTHONPATH=$V timeout 600 /venv/bin/python $d/demo.py >/dev/null 2>&1; a=$?
-patch -p1 -s < $d/patch.diff || { echo "$(basename $d): PATCH DOES NOT APPLY"; rm -rf $V; exit 2; }
-MPLBACKEND=Agg PYTHONPATH=$V timeout 900 /venv/bin/python $d/demo.py >/dev/null 2>&1; b=$?
-t=$(PYTHONPATH=$V /venv/bin/python -m pytest -q -p no:cacheprovider -x 2>&1 | tail -1)
-echo "$(basename $d): demo without patch exit=$a, with patch exit=$b, tests with patch: $t"
-rm -rf $V
+# usage: tools/seed_validate.sh <dir with patch.diff and demo.py>
+# On a scratch worktree of /repo HEAD (outside /repo and /verif, removed afterwards): the demonstration passes without
+# the patch, fails with it, and the repository's test-suite still passes with it.
+set -u
+d=$(realpath "$1")
+wt=$(mktemp -d /tmp/seedval.XXXXXX)
+git -C /repo worktree add -q --detach "$wt" HEAD || exit 2
+trap 'git -C /repo worktree remove --force "$wt" >/dev/null 2>&1; rm -rf "$wt"' EXIT
+cd "$wt"
+PYTHONPATH="$wt" MPLBACKEND=Agg timeout 900 /venv/bin/python "$d/demo.py" >/dev/null 2>&1; clean=$?
+git apply "$d/patch.diff" || { echo "RESULT $1 patch-does-not-apply"; exit 2; }
+PYTHONPATH="$wt" MPLBACKEND=Agg timeout 900 /venv/bin/python "$d/demo.py" >/dev/null 2>&1; mutated=$?
+tests=$(PYTHONPATH="$wt" /venv/bin/python -m pytest -q -p no:cacheprovider --timeout=900 2>&1 | tail -1)
+find "$wt" -name __pycache__ -prune -exec rm -rf {} + 2>/dev/null
+echo "RESULT $1 demo_without_patch=$clean demo_with_patch=$mutated tests_with_patch=[$tests]"
